@@ -44,7 +44,7 @@ From SK Require Import Model.Base Model.Seek Model.SinceSeek Model.Lines
      Model.Task Model.Stats Model.Gzip Model.Sequence Model.Run
      Spec.Lines Spec.C04 Spec.Task Spec.Stats Spec.Sequence Spec.Run
      Proofs.TaskLoop Proofs.TaskSimple Proofs.SeekSpec Proofs.SinceSeekExact
-     Proofs.RunBridge Proofs.RunStream Proofs.Run Proofs.RunSeq
+     Proofs.RunBridge Proofs.RunStream Proofs.Run Proofs.RunSeq Proofs.SeqShift
      Proofs.RunWindow Gen.Params.
 Import ListNotations.
 Open Scope Z_scope.
@@ -219,10 +219,9 @@ Proof. exact run_simple_kind_irrelevant. Qed.
    constraints of its own, find_sequence_sections on the returned collection
    shows exactly Spec/Sequence.v [sections] of the searched lines as that
    definition classifies them (section ids erased).
-   [full for unconstrained definitions; a definition with own constraints
-   sees the lines from its activation line on with their ORIGINAL numbers
-   (C07_own_constraint_exact_any_handler), which Spec.Sequence.sections -
-   numbering from 1 - does not express: not stated here] *)
+   [a definition with own constraints sees the lines from its activation
+   line on with their ORIGINAL numbers: stated separately below as
+   E2E_sequence_search_constrained, through Proofs/SeqShift.v] *)
 Theorem E2E_sequence_search :
   forall (H A L W : Z) (tsw : list Z -> option Z) (line : Type)
          (classify : list Z -> line) (ocon : Z -> line -> Task.outcome)
@@ -244,6 +243,45 @@ Theorem E2E_sequence_search :
         seq_report (q_key d) coll =
         spec_report (q_shape d) (map (qclass (q_key d)) lines).
 Proof. exact sequence_run_exact. Qed.
+
+(* Sequence definitions WITH constraints of their own (C07 x C03, full):
+   such a definition sees the lines from its activation line k on (the
+   first line on which all its constraints pass) with their ORIGINAL
+   numbers; its report is the specification's sections of those lines,
+   numbers moved by k.  For a definition without constraints k = 0 and
+   this is E2E_sequence_search. *)
+Theorem E2E_sequence_search_constrained :
+  forall (H A L W : Z) (tsw : list Z -> option Z) (line : Type)
+         (classify : list Z -> line) (ocon : Z -> line -> Task.outcome)
+         (MAX NBUF : Z) (qclass : Z -> line -> cline),
+    0 < H -> 0 < A -> 0 < L -> 1 <= MAX ->
+    forall (prev : stats) (f : bfile) (since : option Z)
+           (restrictions : list Z) (ds : list qdef),
+    wf f -> keys_ok q_key ds ->
+    (seeks since restrictions (map q_key ds) = true ->
+     seek_hyps H A L W tsw (stream f)) ->
+    let lines := searched W tsw line classify since restrictions
+                          (map q_key ds) (stream f) in
+    exists coll,
+      run_sequence H A L W tsw line classify ocon MAX NBUF qclass prev f
+                   since restrictions ds =
+      RunOk coll (mkStats (Stats.lenZ ds) [Stats.lenZ ds] (Stats.lenZ lines)
+                          1 1 (Stats.lenZ coll)) /\
+      forall d, In d ds -> uniform line ocon (q_cons d) lines ->
+        let k := active_from line ocon (q_cons d) lines in
+        seq_report (q_key d) coll =
+        map (map (shift_item (Z.of_nat k)))
+            (spec_report (q_shape d)
+                         (map (qclass (q_key d)) (skipn k lines))).
+Proof. exact sequence_run_exact_constrained. Qed.
+
+(* the machine started at line number k reports the specification's
+   sections, numbers moved by k (the C03 half of the statement above) *)
+Theorem E2E_sequence_numbering_shift :
+  forall sh k cl,
+    report (seq_run_from sh k cl) =
+    map (map (shift_item k)) (spec_report sh cl).
+Proof. exact sequence_exact_report_from. Qed.
 
 (* (B4) as a statement: the handler run of a definition over numbered lines
    is Model/Sequence.v's seq_loop, and emits nothing while lines are read *)
@@ -521,6 +559,68 @@ Proof.
   vm_compute. split; reflexivity.
 Qed.
 
+(* a sequence definition with constraint 1 of its own (timestamp >= 55),
+   beside an unconstrained one of the same shape: start 'a', end 'b' or 'e'.
+   Unconstrained: two sections (lines 2-5 and 6-7).  Constrained: active
+   from "d7ab" (index 5, line 6), so only the second section, numbered as
+   in the file. *)
+Definition ex_qclass3 (_ : Z) (t : tline) : cline :=
+  {| c_start := match t_omatch 3 t with Some _ => Some 30 | None => None end;
+     c_end := match t_omatch 4 t with Some _ => Some 40 | None => None end;
+     c_body := None |}.
+Definition ex_classify3 (l : list Z) : tline :=
+  mkTline ((if has 97 l then [(3, [97])] else []) ++
+           (if has 98 l || has 101 l then [(4, [98])] else [])) []
+          (match ex_tsw l with
+           | Some d => [(1, if 55 <=? d then Pass else Fail)]
+           | None => []
+           end).
+Definition ex_shape3 := {| has_end := true; has_body := false;
+                           end_empty := None |}.
+Definition ex_qu := mkQdef 8 ex_shape3 [].
+Definition ex_qc := mkQdef 9 ex_shape3 [1].
+
+Example E2E_example_sequence_constrained :
+  (exists coll,
+     run_sequence 4 3 3 2 ex_tsw tline ex_classify3 t_ocon 2 3 ex_qclass3
+                  ex_prev ex_plain None [] [ex_qu; ex_qc] =
+     RunOk coll (mkStats 2 [2] 7 1 1 (Stats.lenZ coll)) /\
+     seq_report 9 coll =
+     map (map (shift_item 5))
+         (spec_report ex_shape3
+            (map (ex_qclass3 9)
+                 (skipn 5 (searched 2 ex_tsw tline ex_classify3 None []
+                                    [8; 9] ex_log))))) /\
+  active_from tline t_ocon [1]
+              (searched 2 ex_tsw tline ex_classify3 None [] [8; 9] ex_log)
+  = 5%nat /\
+  match run_sequence 4 3 3 2 ex_tsw tline ex_classify3 t_ocon 2 3 ex_qclass3
+                     ex_prev ex_plain None [] [ex_qu; ex_qc] with
+  | RunOk coll st => Some (seq_report 8 coll, seq_report 9 coll, st)
+  | _ => None
+  end = Some ([[(2, RStart, 30); (5, REnd, 40)];
+               [(6, RStart, 30); (7, REnd, 40)]],
+              [[(6, RStart, 30); (7, REnd, 40)]],
+              mkStats 2 [2] 7 1 1 6).
+Proof.
+  split.
+  { destruct E2E_example_hypotheses as (W1 & _ & _ & Hs & _ & _).
+    destruct (E2E_sequence_search_constrained 4 3 3 2 ex_tsw tline
+                ex_classify3 t_ocon 2 3 ex_qclass3
+                ltac:(lia) ltac:(lia) ltac:(lia) ltac:(lia)
+                ex_prev ex_plain None [] [ex_qu; ex_qc] W1)
+      as (coll & E & Hr).
+    - intros a b [<-|[<-|[]]] [<-|[<-|[]]] E; try reflexivity;
+        cbn in E; discriminate.
+    - intros _. exact Hs.
+    - exists coll. split; [exact E|].
+      refine (Hr ex_qc (or_intror (or_introl eq_refl)) _).
+      intros l Hl. vm_compute in Hl.
+      repeat (destruct Hl as [<-|Hl]; [vm_compute; reflexivity|]).
+      destruct Hl. }
+  vm_compute. split; reflexivity.
+Qed.
+
 Print Assumptions E2E_single_file_run_exact.
 Print Assumptions E2E_boundary_cuts_lines.
 Print Assumptions E2E_seek_position_cuts_lines.
@@ -530,9 +630,12 @@ Print Assumptions E2E_searched_lines_are_file_lines.
 Print Assumptions E2E_window_exact_on_lines.
 Print Assumptions E2E_file_kind_irrelevant.
 Print Assumptions E2E_sequence_search.
+Print Assumptions E2E_sequence_search_constrained.
+Print Assumptions E2E_sequence_numbering_shift.
 Print Assumptions E2E_sequence_handler_is_seq_loop.
 Print Assumptions E2E_real_single_file_run_exact.
 Print Assumptions E2E_example_theorem_applies.
 Print Assumptions E2E_example_run.
 Print Assumptions E2E_example_sequence.
 Print Assumptions E2E_example_window.
+Print Assumptions E2E_example_sequence_constrained.
